@@ -205,13 +205,13 @@ PROPS["C17"] = {
 }
 
 MC = {
-    "MC_Codec": {"spec": "MC_Codec", "must_take": ["Write", "StartRead", "Read"], "timeout": 1800},
-    "MC_Codec_thorough": {"spec": "MC_Codec", "cfg": "MC_Codec_thorough.cfg", "must_take": ["Write", "StartRead", "Read"], "timeout": 3400},
-    "MC_Planner": {"spec": "MC_Planner", "must_take": ["PIterate"], "timeout": 600},
-    "PlannerInductive": {"apalache": True, "spec": "PlannerApa", "init": "PInit", "indinit": "IndInit", "next": "PNext", "inv": "IndInv", "timeout": 600},
-    "MC_Reader": {"spec": "MC_Reader", "must_take": ["Step"], "timeout": 900},
-    "MC_SymbolList": {"spec": "MC_SymbolList", "must_take": ["Next"], "timeout": 1200},
-    "MC_Placement": {"spec": "MC_Placement", "must_take": ["Statement"], "timeout": 900},
+    "MC_Codec": {"spec": "MC_Codec", "must_take": ["Write", "StartRead", "Read"], "timeout": 7200},
+    "MC_Codec_thorough": {"spec": "MC_Codec", "cfg": "MC_Codec_thorough.cfg", "must_take": ["Write", "StartRead", "Read"], "timeout": 10800},
+    "MC_Planner": {"spec": "MC_Planner", "must_take": ["PIterate"], "timeout": 3600},
+    "PlannerInductive": {"apalache": True, "spec": "PlannerApa", "init": "PInit", "indinit": "IndInit", "next": "PNext", "inv": "IndInv", "timeout": 3600},
+    "MC_Reader": {"spec": "MC_Reader", "must_take": ["Step"], "timeout": 5400},
+    "MC_SymbolList": {"spec": "MC_SymbolList", "must_take": ["Next"], "timeout": 5400},
+    "MC_Placement": {"spec": "MC_Placement", "must_take": ["Statement"], "timeout": 5400},
 }
 HOOK_COMMITS = ["d90b018"]
 SETUP_MC = ["MC_Codec", "MC_Reader", "MC_Placement", "MC_Planner", "MC_SymbolList"]
